@@ -326,3 +326,57 @@ Theorem write_plan_text_never_panics :
   end.
 Proof. exact NoPanicTextProofs.write_plan_text_clean. Qed.
 Print Assumptions write_plan_text_never_panics.
+
+(* ... and the POLLS: every text, every poll sequence (the finished plan polled again and
+   again, Next and Batch mixed), every storage state and fault index -- BuildPlan is never
+   TPanic / TFuel and no poll of an accepted plan returns an error of the EPanic / EFuel class
+   (only evaluation errors and the injected storage error) *)
+From KV Require Model.Write Model.Delete Model.ScanIO.
+Theorem write_text_never_panics :
+  forall (fo : fops) (re : bytes -> bytes -> res bool), (forall p t, re p t <> Panic) ->
+  forall (q : string) (polls : list Write.poll) (s : Storage.sstate),
+  match fst (PipelineW.write_text fo re q polls s) with
+  | Pipeline.TPanic | Pipeline.TFuel => False
+  | Pipeline.TOk outs =>
+      Forall (fun r : Write.pres => snd r <> Some Storage.EPanic /\ snd r <> Some Storage.EFuel) outs
+  | _ => True
+  end.
+Proof. exact NoPanicTextProofs.write_text_never_panics. Qed.
+Print Assumptions write_text_never_panics.
+
+(* DELETE from the text: BuildPlan is never TPanic / TFuel, for every text, PlanBatchSize and
+   storage state; the DeletePlan it returns never ends in the EPanic class, whatever filter,
+   batch size and fuel *)
+Theorem delete_text_never_panics :
+  forall (fo : fops) (re : bytes -> bytes -> res bool) (fmt_v : F fo -> string)
+         (q : string) (B : nat) (s : Storage.sstate),
+  match fst (PipelineW.delete_text fo re fmt_v q B s) with
+  | Pipeline.TPanic | Pipeline.TFuel => False
+  | _ => True
+  end /\
+  forall pl flt fuel, PipelineW.delete_plan_text fo re fmt_v q = Pipeline.TOk pl ->
+    match PipelineW.dp_plan pl with
+    | Delete.DScan c =>
+        fst (ScanIO.run ScanIO.exec_req (ScanIO.delete_prog true flt B fuel c) s) <> Storage.Err Storage.EPanic
+    | Delete.DRemove keys => True
+    end.
+Proof. exact NoPanicTextProofs.delete_text_never_panics. Qed.
+Print Assumptions delete_text_never_panics.
+
+(* non-vacuity: texts the write twins accept and run (the finished PUT plan polled twice more),
+   a value expression that fails, corrupted texts that are rejected with a position *)
+Example write_text_never_panics_nonvacuous :
+  forall (fo : fops) (re : bytes -> bytes -> res bool) (fmt_v : F fo -> string),
+  let s := Storage.sinit [("a", "1"); ("b", "2")] None in
+  fst (PipelineW.write_text fo re "put ('k1', 'v1'), ('k2', upper('v' + key));" [Write.PNext; Write.PBatch; Write.PNext] s) =
+    Pipeline.TOk [(Some 2, None); (None, None); (None, None)] /\
+  fst (PipelineW.write_text fo re "put ('k', str(1 / (1 - 1)))" [Write.PBatch; Write.PNext] s) =
+    Pipeline.TOk [(Some 0, Some Storage.EExec); (None, None)] /\
+  fst (PipelineW.write_text fo re "put ('k', 'v'" [Write.PNext] s) = Pipeline.TReject (-1) /\
+  fst (PipelineW.write_text fo re "remove 'a',, 'b'" [Write.PNext] s) = Pipeline.TReject 11 /\
+  (exists dp, fst (PipelineW.delete_text fo re fmt_v "delete where key ^= 'a' limit 1" 2 s) = Pipeline.TOk dp) /\
+  fst (PipelineW.delete_text fo re fmt_v "delete where key ^= limit 1" 2 s) = Pipeline.TReject 20.
+Proof.
+  intros. split; [vm_compute; reflexivity|]. split; [vm_compute; reflexivity|]. split; [vm_compute; reflexivity|].
+  split; [vm_compute; reflexivity|]. split; [eexists; vm_compute; reflexivity|]. vm_compute; reflexivity.
+Qed.
